@@ -11,26 +11,33 @@
 (* coin by coin (burn-then-mint for a transfer).  The properties below are *)
 (* declarative (per-denomination totals) and are checked by TLC on every   *)
 (* transition (C09).                                                       *)
+(* Beyond C09: denomination metadata (set_denom_metadata, the              *)
+(* DenomMetadata / AllDenomMetadata queries) is a separate map that the    *)
+(* ledger operations never touch and that never touches the ledger.        *)
 (***************************************************************************)
 EXTENDS BankOps, FiniteSets, SequencesExt, TLC, Json
 
 CONSTANTS Accounts,
           CoinLists,   \* the set of coin lists tried: sequences of <<denom, amount>>
-          Cap          \* state constraint: no supply above Cap (mints beyond it are not tried)
+          Cap,         \* state constraint: no supply above Cap (mints beyond it are not tried)
+          MetaDenoms,  \* denominations that may get metadata
+          MetaVals     \* metadata values tried (tokens)
 
 VARIABLES bal,      \* [Accounts -> [Denoms -> Nat]]
           supply,   \* [Denoms -> Nat]: minted minus burned so far
+          meta,     \* [Denoms -> token]: "" = no metadata stored
           last,     \* the operation just performed and its outcome, or NoOp
           hist
 
-vars == <<bal, supply, last, hist>>
-view == <<bal, supply, last>>
+vars == <<bal, supply, meta, last, hist>>
+view == <<bal, supply, meta, last>>
 
 NoOp == [a |-> "none"]
 
 -----------------------------------------------------------------------------
 Init == /\ bal = [a \in Accounts |-> [d \in Denoms |-> 0]]
         /\ supply = [d \in Denoms |-> 0]
+        /\ meta = [d \in Denoms |-> ""]
         /\ last = NoOp
         /\ hist = <<>>
 
@@ -39,6 +46,7 @@ Do(op, r, sup) ==
     /\ supply' = sup
     /\ last' = [op EXCEPT !.ok = r.ok]
     /\ hist' = Append(hist, [op EXCEPT !.ok = r.ok])
+    /\ UNCHANGED meta
 
 Mint(to, coins) ==
     /\ last = NoOp
@@ -58,14 +66,23 @@ Burn(from, coins) ==
        Do([a |-> "burn", from |-> from, to |-> from, coins |-> coins, ok |-> TRUE], r,
           IF r.ok THEN [d \in Denoms |-> supply[d] - Tot(coins, d)] ELSE supply)
 
+(* BankKeeper::set_denom_metadata: stored as given, replaces what was there *)
+SetMeta(d, m) ==
+    /\ last = NoOp
+    /\ meta' = [meta EXCEPT ![d] = m]
+    /\ LET op == [a |-> "setmeta", from |-> d, to |-> m, coins |-> <<>>, ok |-> TRUE] IN
+       last' = op /\ hist' = Append(hist, op)
+    /\ UNCHANGED <<bal, supply>>
+
 (* the emitted script has been printed: back to a canonical state *)
 Settle == /\ last # NoOp
           /\ last' = NoOp
-          /\ UNCHANGED <<bal, supply, hist>>
+          /\ UNCHANGED <<bal, supply, meta, hist>>
 
 Next == \/ \E to \in Accounts, c \in CoinLists : Mint(to, c)
         \/ \E f \in Accounts, t \in Accounts, c \in CoinLists : Send(f, t, c)
         \/ \E f \in Accounts, c \in CoinLists : Burn(f, c)
+        \/ \E d \in MetaDenoms, m \in MetaVals : SetMeta(d, m)
         \/ Settle
 
 Spec == Init /\ [][Next]_vars
@@ -90,7 +107,7 @@ IsOp == last = NoOp /\ last' # NoOp
 (* an operation fails exactly when it carries no positive amount or would overdraw (per
    denomination, repeated denominations summed), and then changes nothing *)
 FailExactly ==
-    [][IsOp => LET op == last' IN
+    [][(IsOp /\ last'.a # "setmeta") => LET op == last' IN
                /\ op.ok = (Positive(op.coins) /\ (op.a = "mint" \/ Covered(bal[op.from], op.coins)))
                /\ ~op.ok => (bal' = bal /\ supply' = supply)]_vars
 
@@ -110,6 +127,13 @@ SupplyExactly ==
             supply'[d] = supply[d] + (IF op.a = "mint" THEN Tot(op.coins, d) ELSE 0)
                                    - (IF op.a = "burn" THEN Tot(op.coins, d) ELSE 0)]_vars
 
+(* metadata and ledger are independent *)
+MetaFrame ==
+    [][IsOp => LET op == last' IN
+               IF op.a = "setmeta"
+               THEN bal' = bal /\ supply' = supply /\ meta' = [meta EXCEPT ![op.from] = op.to]
+               ELSE meta' = meta]_vars
+
 -----------------------------------------------------------------------------
 (* replay scripts: printed in the state right after an operation *)
 AccSeq == SetToSeq(Accounts)
@@ -119,7 +143,8 @@ Script == [ ops    |-> hist,
             cap    |-> Cap,
             bal    |-> [i \in 1..Len(AccSeq) |->
                           << AccSeq[i], [j \in 1..Len(DenSeq) |-> << DenSeq[j], bal[AccSeq[i]][DenSeq[j]] >>] >>],
-            supply |-> [j \in 1..Len(DenSeq) |-> << DenSeq[j], supply[DenSeq[j]] >>] ]
+            supply |-> [j \in 1..Len(DenSeq) |-> << DenSeq[j], supply[DenSeq[j]] >>],
+            meta   |-> [j \in 1..Len(DenSeq) |-> << DenSeq[j], meta[DenSeq[j]] >>] ]
 
 Emit == last # NoOp => PrintT(ToJson(Script))
 =============================================================================
